@@ -17,7 +17,12 @@ Definition Asg (x : Z) (e : expr) : stmt := SAssign (Z.to_N x) e.
 Definition OpAsg (x : Z) (op : binop) (e : expr) : stmt := SOpAssign (Z.to_N x) op e.
 Definition Inc (x : Z) : stmt := SInc (Z.to_N x).
 Definition Dec (x : Z) : stmt := SDec (Z.to_N x).
-Definition Fn (params : list Z) (body : stmt) : func := {| f_params := map Z.to_N params; f_body := body |}.
+Definition Fn (params : list Z) (nres : Z) (body : stmt) : func :=
+  {| f_params := map Z.to_N params; f_nres := Z.to_nat nres; f_body := body |}.
+Definition CallS (f : Z) (args : list expr) : stmt := SCall (Z.to_nat f) args.
+(* targets of a multiple assignment: a negative number is the blank identifier *)
+Definition CallAsg (decl : bool) (xs : list Z) (f : Z) (args : list expr) : stmt :=
+  SCallAssign decl (map (fun x => if x <? 0 then None else Some (Z.to_N x)) xs) (Z.to_nat f) args.
 Fixpoint Seq (l : list stmt) : stmt := match l with [] => SSkip | [s] => s | s :: t => SSeq s (Seq t) end.
 
 Definition LdLoc (n : Z) := ILdLoc (Z.to_nat n).
@@ -110,14 +115,14 @@ Definition check_case (c : case) : N :=
   | CObs go vm => if go =? vm then 0%N else 2%N
   | CFrag p code ents runs =>
       let ents' := map Z.to_nat ents in
-      let seq_ok := list_eqb instr_eqb (compile_program p) code && list_eqb Nat.eqb (entries 0%nat p) ents' in
+      let seq_ok := list_eqb instr_eqb (compile_program p) code && list_eqb Nat.eqb (entries (nres p) 0%nat p) ents' in
       let per_run := fun (r : Z * list val * obs * obs) =>
         match r with
         | (f, vs, vm, go) =>
             let fi := Z.to_nat f in
             let src := run_src src_fuel p fi vs in
             let defined := match src with Ok _ | Fault => true | _ => false end in
-            let src_obs := match src with Ok v => RV v | Fault => RF | _ => RX end in
+            let src_obs := match src with Ok [v] => RV v | Fault => RF | _ => RX end in
             let tgt := obs_of_tres (run_tgt_bin code (nth fi ents' 0%nat) vs) in
             (* specification: the VM and the Go toolchain agree wherever the run is defined (no overflow) *)
             let spec := negb defined || obs_eqb vm go in
